@@ -28,15 +28,46 @@ def parse_verdicts(out):
     return res
 
 
+def _merge(a, b):
+    if a.get("crash") or b.get("crash"):
+        return a if a.get("crash") else b
+    res = {k: a.get(k, 0) + b.get(k, 0) for k in ("requests", "accepted", "refused", "plumbing", "events", "unspecified")}
+    res["violations"] = a["violations"] + b["violations"]
+    return res
+
+
+def _replay_chunk(exe, lines, e, depth):
+    """one process for the chunk; a crash or a hang is attributed to single requests by bisection"""
+    rc, out = vlib.sh([exe], input="\n".join(lines) + "\n", timeout=(60 if depth == 0 else 15) + 0.4 * len(lines), env=e)
+    last = [l for l in out.splitlines() if l.startswith("{")]
+    if rc == 0 and last:
+        return json.loads(last[-1])
+    if len(lines) == 1:
+        w = lines[0].split()
+        kind = "hang" if rc == 124 else "crash"
+        return {"requests": 1, "accepted": 0, "refused": 0, "plumbing": 0, "events": 0, "unspecified": 0,
+                "violations": [{"key": "%s:%s/%s/%s/%s" % (kind, w[0], w[1], w[2], w[3]),
+                                "what": "the library %s (rc=%s) on this request: %s" % ("does not return" if rc == 124 else "crashes", rc, out[-300:])}]}
+    if depth > 16:
+        return {"crash": True, "rc": rc, "out": out[-1500:]}
+    mid = len(lines) // 2
+    return _merge(_replay_chunk(exe, lines[:mid], e, depth + 1), _replay_chunk(exe, lines[mid:], e, depth + 1))
+
+
 def run_replay(exe, lines, env=None):
     e = vlib.harness_env("plain")
     if env:
         e.update(env)
-    rc, out = vlib.sh([exe], input="\n".join(lines) + "\n", timeout=2400, env=e)
-    last = [l for l in out.splitlines() if l.startswith("{")]
-    if rc != 0 or not last:
-        return {"crash": True, "rc": rc, "out": out[-1500:]}
-    return json.loads(last[-1])
+    res = {"requests": 0, "accepted": 0, "refused": 0, "plumbing": 0, "events": 0, "unspecified": 0, "violations": []}
+    hangs = 0
+    for i in range(0, len(lines), 1500):
+        res = _merge(res, _replay_chunk(exe, lines[i:i + 1500], e, 0))
+        if res.get("crash"):
+            return res
+        hangs = sum(1 for v in res["violations"] if v["key"].startswith(("hang:", "crash:")))
+        if hangs > 40:
+            break   # a systematic hang/crash: enough evidence, do not spend the time box on every instance
+    return res
 
 
 def run(tier, replay):
@@ -63,8 +94,17 @@ def run(tier, replay):
     ck.set("grid_unspecified", len(und))
     exe = vlib.compile_harness("dbdrules_replay", ["harness/dbdrules_replay.cc"], "plain")
 
+    import schemes as sch
+    tab = {e["name"]: e for e in sch.Schemes().tab["table"]}
+
     def fmt(g):
-        return "%s %d %d %s %d %d" % (g[0] if g[0] != "" else "''", g[1], g[2], g[3], g[4], g[5])
+        s_ = "%s %d %d %s %d %d" % (g[0] if g[0] != "" else "''", g[1], g[2], g[3], g[4], g[5])
+        if g[5] == 1 and g[3] == "none" and g[0] in tab and 0 <= g[1] < len(tab[g[0]]["levels"]):
+            e = tab[g[0]]
+            lv = e["levels"][g[1]]
+            four = g[2] == 20 and "Q4" in e
+            s_ += " %s %s %s %s %d" % (e["Q4"] if four else e["Q"], lv["EK"], e["Z4"] if four else e["Z"], e["A"], lv["E"])
+        return s_
     work = [fmt(g) for g in rej + und] + [fmt(g) for g in acc]
     rng.shuffle(work)
     nsh = 8
@@ -119,6 +159,6 @@ def run(tier, replay):
     for g in (acc[:2] + rej[:2]):
         ck.sample({"iso": g[0], "level": g[1], "mode": g[2], "window": g[3], "library": g[4], "plumbing": g[5], "reference": g[6]})
     ck.assumptions += ["gA dataset not mounted in this run (modes 21-24 must be refused); the mounted variant is exercised by C14/C09",
-                       "window classes: valid = (0, 5) MeV, inverted = (2, 1) MeV",
+                       "window classes: valid = (0, 5) MeV, inverted = (2, 1) MeV, beyond = (5, 6) MeV (above every Q value)",
                        "levels whose spin flag the reference leaves unassigned (Dy156 levels 12, 13) have no specified verdict"]
     return ck.finish()
